@@ -71,6 +71,20 @@ var (
 // Active reports whether a simulated run is in progress.
 func Active() bool { return atomic.LoadInt32(&on) == 1 }
 
+var beginHooks []func()
+
+// OnBegin registers a function run at the start of every simulated run, inside
+// the bubble. The instrumenter uses it to re-create package-level channels: a
+// channel made at package initialisation lives outside the synctest bubble, so
+// a task blocked on it would not count as durably blocked and the simulator
+// could not see the run go quiescent. Every run thus starts, like a fresh
+// process, with new package-level channels.
+func OnBegin(f func()) {
+	mu.Lock()
+	beginHooks = append(beginHooks, f)
+	mu.Unlock()
+}
+
 // Begin starts a simulated run. It must be called inside the synctest bubble
 // by the controller goroutine. ncpu is what NumCPU() reports, ent is what
 // Entropy() returns (nil: the real crypto/rand.Reader).
@@ -87,6 +101,12 @@ func Begin(ncpu int, ent io.Reader) {
 	atomic.StoreInt64(&quantum, 0)
 	atomic.StoreInt32(&poolMode, 0)
 	atomic.StoreInt32(&on, 1)
+	hooks := append([]func(){}, beginHooks...)
+	mu.Unlock()
+	for _, h := range hooks {
+		h()
+	}
+	mu.Lock()
 }
 
 // End stops the simulated run: every later simrt call is a pass-through. Tasks
